@@ -229,3 +229,55 @@ impl Clone for ECCCurve {
 pub proof fn axiom_addr_space_vec(v: &Vec<u8>)
     ensures v@.len() < 0x0100_0000_0000_0000
 {}
+
+//@trusted T2 rsa::RsaPrivateKey::{d, primes} (trait PrivateKeyParts): the private exponent and the prime factors; every constructor of RsaPrivateKey leaves at least two primes (rsa-0.9.10 key.rs from_components: fewer than two are recovered or rejected).  num_bigint_dig: `p.mod_inverse(&q)` for BigUint is Some(x) exactly when gcd(p, q) == 1 (algorithms/mod_inverse.rs:14), x then lies in [0, q) so `to_biguint()` is Some; BigUint::clone copies the number; `Mpi::from(BigUint)` holds its to_bytes_be()
+pub uninterp spec fn big_coprime(a: BigUint, b: BigUint) -> bool;
+pub uninterp spec fn big_modinv(a: BigUint, b: BigUint) -> BigUint;
+#[verifier::external_body]
+pub struct BigInt { _x: u8 }
+impl BigInt {
+    pub uninterp spec fn nonneg(&self) -> bool;
+    pub uninterp spec fn mag(&self) -> BigUint;
+    #[verifier::external_body]
+    pub fn to_biguint(&self) -> (r: Option<BigUint>)
+        ensures r is Some == self.nonneg(), r matches Some(u) ==> u == self.mag()
+    { unimplemented!() }
+}
+impl Clone for BigUint {
+    #[verifier::external_body]
+    fn clone(&self) -> (r: BigUint) ensures r == *self { unimplemented!() }
+}
+impl BigUint {
+    #[verifier::external_body]
+    pub fn mod_inverse(self, m: &BigUint) -> (r: Option<BigInt>)
+        ensures r is Some == big_coprime(self, *m), r matches Some(x) ==> x.nonneg() && x.mag() == big_modinv(self, *m)
+    { unimplemented!() }
+}
+pub mod rsa_private {
+    use super::*;
+    #[verifier::external_body]
+    pub struct RsaPrivateKey { _x: u8 }
+    impl RsaPrivateKey {
+        pub uninterp spec fn d_val(&self) -> BigUint;
+        pub uninterp spec fn primes_val(&self) -> Seq<BigUint>;
+        #[verifier::external_body]
+        pub fn d(&self) -> (r: &BigUint) ensures *r == self.d_val() { unimplemented!() }
+        #[verifier::external_body]
+        pub fn primes(&self) -> (r: &[BigUint]) ensures r@ == self.primes_val(), r@.len() >= 2 { unimplemented!() }
+    }
+}
+
+//@trusted T2 bytes::BytesMut derefs to its content; BytesMut::clone copies it; Bytes::from(BytesMut) (= freeze) keeps it
+impl core::ops::Deref for BytesMut {
+    type Target = [u8];
+    #[verifier::external_body]
+    fn deref(&self) -> (r: &[u8]) ensures r@ == self@ { unimplemented!() }
+}
+impl Clone for BytesMut {
+    #[verifier::external_body]
+    fn clone(&self) -> (r: BytesMut) ensures r@ == self@ { unimplemented!() }
+}
+impl core::convert::From<BytesMut> for Bytes {
+    #[verifier::external_body]
+    fn from(v: BytesMut) -> (r: Bytes) ensures r@ == v@ { unimplemented!() }
+}
